@@ -60,6 +60,9 @@ impl Property for C07CancelAll {
     fn part(&self) -> &'static str { "cancel-all-sched" }
     fn strategy(&self, _tier: Tier) -> BoxedStrategy<ChanCase> {
         case_strategy(Gen { kinds: &ALL_KINDS, max_streams: &[1, 2, 4], buffers: &[2, 4, 8], max_producers: 2, max_ops: 3, max_consumers: 3, retry: false, fresh_wakers: true, prefill: true, canceller: true, drop_on_end: true, ..Default::default() })
+            // (the Arc kinds block the sender -- sleeping -- when a listener's queue is full; a listener dropped during the run can be fed for ever by
+            //  senders that raced with its removal [known finding R8]: there the streams are dropped after the run only)
+            .prop_map(|mut c| { if c.kind.waits_when_full() { for k in c.consumers.iter_mut() { k.drop_on_end = false; } } c }).boxed()
     }
     fn cases(&self, tier: Tier) -> u32 { match tier { Tier::Quick => 6_000, Tier::Thorough => 120_000 } }
     fn run(&self, case: &ChanCase) -> RunReport {
